@@ -221,9 +221,9 @@ Qed.
 (* The equalities need of the sequence matrix only [mat_wf C K (sq_mat q)]: every row has C cells
    and every cell is a symbol (< K) -- the type invariant of DenseMatrix<A::Symbol, C>.  The `_wf`
    statements therefore cover EVERY StripedSequence the API can build, whatever its cells hold:
-   Stripe::stripe / stripe_into (wildcard padding, [Striped]), StripedSequence::new on any matrix
-   (any padding, any number of rows with rows * C >= len) and StripedSequence::sample (padding drawn
-   like the sequence), before or after any configure / configure_wrap.  The statements with
+   Stripe::stripe / stripe_into and StripedSequence::sample (wildcard padding, [Striped]; sample drew its
+   padding like the sequence before /repo 740d563) and StripedSequence::new on any matrix (any padding,
+   any number of rows with rows * C >= len), before or after any configure / configure_wrap.  The statements with
    [Striped] that follow each of them are corollaries (kept under their round-2 names). *)
 Theorem C01_score_avx2_permute_eq_wf :
   forall (T : Type) (add : T -> T -> T) (zero : T) (K : nat)
@@ -812,9 +812,10 @@ Qed.
                          R = rows q - wrap q, the matrix of q is the striped form of s ++ pad
                          with wrap q look-ahead rows ([Striped] read with len = R*C).
    `StripedSequence::new(m, len)` accepts any matrix with rows*C >= len (R may exceed
-   ceil(len/C), the cells of linear index >= len hold anything); `StripedSequence::sample` draws
-   EVERY cell of its ceil(len/C) rows from the background, so its padding is never the wildcard
-   (unless the wildcard has a frequency).  Property C04 proves [StripedPad] (the same predicate
+   ceil(len/C), the cells of linear index >= len hold anything); `StripedSequence::sample` drew
+   EVERY cell of its ceil(len/C) rows from the background up to /repo a1b1f91 (padding never the
+   wildcard: finding of this round, see notes/score.md) and pads with the wildcard since the fix
+   740d563, which makes it [Striped].  Property C04 proves [StripedPad] (the same predicate
    in coq/stripe) for every history of sample / new / stripe / stripe_into / configure /
    configure_wrap calls (C04_pad_history; bridged in C01History.v).  [Striped] is the special
    case R = ceil(|s|/C), pad = wildcards. *)
@@ -857,8 +858,9 @@ Qed.
    PADDING: the padding symbols are scored like sequence symbols, only a window running past
    cell R*C - 1 reads the wildcard.  So the cells of index 0 .. L-M are the defined scores of s, and the
    cells of index L-M+1 .. R*C-1 ("past the last valid position") depend on the padding: after
-   Stripe::stripe they are scores of windows of wildcards (-inf for a -inf wildcard column), after
-   ::sample / ::new they are scores of windows of ordinary symbols (see the witness below). *)
+   Stripe::stripe (and ::sample since 740d563) they are scores of windows of wildcards (-inf for a -inf
+   wildcard column), after ::new on a matrix with other padding (and ::sample before 740d563) they are
+   scores of windows of ordinary symbols (see the witness below). *)
 Theorem C01_score_cells_padded :
   forall (T : Type) (add : T -> T -> T) (zero : T) (C K : nat)
          (pssm : list (list T)) (s pad : list nat) (q : sseq),
